@@ -80,7 +80,7 @@ var texts = []string{"", "", "Main St", "a,b", "say \"hi\"", "line1\nline2", "ZÃ
 func genText(t *rapid.T, label string) string { return rapid.SampledFrom(texts).Draw(t, label) }
 
 // AgencyZones are agency_timezone values: loadable, and unknown names (UTC fallback).
-var AgencyZones = []string{"America/New_York", "Europe/London", "Australia/Lord_Howe", "Asia/Kathmandu", "America/Havana", "America/Sao_Paulo", "America/Santiago", "Africa/Cairo", "UTC", "Etc/GMT+5", "Asia/Tokyo", "d", "Mars/Olympus", "America/New York", "PST", "EDT", "BST", "GMT+2"}
+var AgencyZones = []string{"America/New_York", "Europe/London", "Australia/Lord_Howe", "Asia/Kathmandu", "America/Havana", "America/Sao_Paulo", "America/Santiago", "Africa/Cairo", "UTC", "Etc/GMT+5", "Asia/Tokyo", "d", "Mars/Olympus", "America/New York", "PST", "EDT", "BST", "GMT+2", "europe/london", "AMERICA/NEW_YORK", "asia/tokyo", "utc", "Utc"}
 
 // GenTime draws a GTFS time with its spelling.
 func GenTime(t *rapid.T, label string) TimeVal {
@@ -132,7 +132,7 @@ var DSTDays = [][3]int{{2024, 3, 10}, {2024, 11, 3}, {2023, 3, 12}, {2023, 11, 5
 
 // GenDate draws a civil date whose midnight exists exactly once in loc.
 func GenDate(t *rapid.T, label string, loc *time.Location) (Date, bool) {
-	y := rapid.OneOf(rapid.IntRange(1995, 2050), rapid.SampledFrom([]int{2022, 2023, 2024, 1970, 2099})).Draw(t, label+"Y")
+	y := rapid.OneOf(rapid.IntRange(1995, 2050), rapid.SampledFrom([]int{2022, 2023, 2024, 1970, 2099, 2022, 2023, 2024, 1, 1900, 1969, 9999})).Draw(t, label+"Y")
 	m := rapid.IntRange(1, 12).Draw(t, label+"M")
 	d := rapid.IntRange(1, 28).Draw(t, label+"D")
 	if rapid.IntRange(0, 7).Draw(t, label+"End") == 0 {
